@@ -159,3 +159,12 @@ def check(ctx):
     # a merged timeline is a function of time only if it applies every component on every evaluation
     c12.check_loop_method(ctx, F, "R2", "update", mutable=False)
     ctx.notes.append("excluded, as in the property: a user-supplied Easing::Custom. Not decided: nothing material for built-in easings")
+
+
+def controls(ctx, F):
+    from rules import c08
+    s = c08.control_shape(F)
+    D.rule_update(ctx, s, rule_wiring="R2", rule_touch="R2", rule_pure="R2")
+    D.rule_start_with(ctx, s, "R4")
+    return [("R2", "reads-target", "hand-written update whose result depends on the previous contents of the target"),
+            ("R4", "start-with-wrong", "hand-written start_with that skips a field")]
